@@ -495,6 +495,7 @@ def run(ck, replay_sets=None):
     stream_isk(ck, ask, pool, scratch)
     stream_config_cli(ck, ask, pool, scratch, by_type)
     stream_vx(ck, ask, pool, scratch, by_type)
+    stream_hab_items(ck, ask, pool, scratch, by_type)
     stream_cli(ck, pool, scratch, by_type)
     ask.flush()
     logging.disable(logging.NOTSET)
@@ -539,6 +540,123 @@ def stream_keyhash(ck, ask, pool, scratch):
                 e = cres(lambda: PublicKey.create(k.pub).export())
                 s.expect(e == hx(k.raw_nxp()), kdesc([k]), "PublicKeyEcc.export() is not X||Y at the fixed coordinate width", e)
                 ask(f"export {k.tok()}", lambda a, k=k, e=e: s.compare(kdesc([k]), e, a, "model exportKey differs"))
+    return s
+
+
+# ------------------------------------------------------------------------------------------------ stream: HAB SRK table items (phase 3)
+def stream_hab_items(ck, ask, pool, scratch, by_type):
+    """HAB SRK table entries: every EC key of the pool (P-256 / P-384 / P-521, leading-zero coordinates included) and RSA keys"""
+    import hashlib
+    import random
+    from spsdk.crypto.certificate import Certificate
+    from spsdk.image.secret import SrkItem, SrkItemEcc, SrkTable
+    from spsdk.utils.crypto.rot import Rot
+    rng = random.Random(f"C03/hab_srk_items/{ck.seed}")
+    s = ck.stream("hab_srk_items", "HAB SRK table entries for every EC pool key (P-256 / P-384 / P-521 incl. leading-zero X / Y) x CA flag: "
+                  "SrkItem.from_certificate(cert).export() = the documented item E1 | BE16(12 + 2 x coordinate size) | 27 | 00 00 00 flag | curve id | 00 | "
+                  "BE16(key size in BITS: 521 = 0x0209 for P-521) | X | Y (built here with struct, independent of the model); SrkItemEcc.parse / SrkItem.parse of "
+                  "item + junk gives (bits, X, Y, flag) and re-exports the same bytes; a one-item SrkTable survives export -> parse with the same fuses = "
+                  "hashlib reference = Rot(srk_table_hab); mixed-curve tables of 2..4 items (always one P-521) survive export -> parse; "
+                  "the model (Rkht.habEccExport / habEccParse from the generated field description) is compared on the same items, on SrkItemEcc objects with "
+                  "odd key sizes (0, 255, 257, 300, 512, 520, 528, 536, 768 ...) and on items with one mutated header byte / truncated")
+    curve_id = {256: 0x4B, 384: 0x4D, 521: 0x4E}
+    fam, rev = sorted(by_type["srk_table_hab"])[0]
+
+    def doc_item(k, flag):
+        return (bytes([0xE1]) + struct.pack(">H", 12 + 2 * k.cs) + bytes([0x27, 0, 0, 0, flag, curve_id[k.bits], 0]) + struct.pack(">H", k.bits)
+                + k.a.to_bytes(k.cs, "big") + k.b.to_bytes(k.cs, "big"))
+
+    def obs(it):
+        return f"{it.key_size} {it.x_coordinate} {it.y_coordinate} {it.flag}"
+
+    ecc = [k for (kind, bits), ks in pool.items() if kind.startswith("ecc") for k in ks]
+    items521 = []
+    for k in ecc:
+        lz = k.lead_zero()
+        for ca_kind in (("none", "ku_only") if (lz or k.id % 2 == 0 or k.bits == 521) else (rng.choice(["none", "ku_only", "both", "bc_only"]),)):
+            flag = 0x80 if ca_kind in ("ku_only", "both") else 0
+            inp = kdesc([k], ca=bool(flag), cert=ca_kind)
+            s.note((k.id, ca_kind), cls=f"ecc{k.bits}{'-lz' if lz else ''}-flag{flag:02x}")
+            r = pyres(lambda: SrkItem.from_certificate(Certificate(k.cert(ca_kind))))
+            s.expect(r[0] == "ok" and isinstance(r[1], SrkItemEcc), inp, "SrkItem.from_certificate does not yield an EC SRK item", r[0])
+            if r[0] != "ok":
+                continue
+            item = r[1]
+            data = cres(item.export)
+            exp = doc_item(k, flag)
+            s.expect(data == hx(exp), inp, "HAB EC SRK item differs from the documented layout (key size field in BITS, fixed-width coordinates)", data, hx(exp))
+            ask(f"habecc_export {k.bits} {k.a} {k.b} {flag}", lambda a, data=data, inp=inp: s.compare(inp, data, a, "model habEccExport differs from SrkItemEcc.export"))
+            if not data.startswith("ok:"):
+                continue
+            raw = bytes.fromhex(data[3:])
+            junk = bytes(rng.getrandbits(8) for _ in range(rng.choice([0, 1, 7, 40])))
+            for nm, P in (("SrkItemEcc.parse", SrkItemEcc.parse), ("SrkItem.parse", SrkItem.parse)):
+                pr = pyres(P, raw + junk)
+                got = canon(pr, obs)
+                s.expect(got == f"ok:{k.bits} {k.a} {k.b} {flag}", dict(inp, junk=junk.hex()), f"{nm}(export) does not give key size (bits), X, Y, flag back", got)
+                if pr[0] == "ok":
+                    s.expect(cres(pr[1].export) == data, inp, f"{nm}(export).export() differs from the exported item", cres(pr[1].export), data)
+                    s.expect(safe(lambda: pr[1].size) == len(raw), inp, "size of the parsed item differs from the exported length", safe(lambda: pr[1].size), len(raw))
+            ask(f"habecc_parse {(raw + junk).hex()}", lambda a, k=k, flag=flag, inp=inp: s.compare(inp, f"ok:{k.bits} {k.a} {k.b} {flag}", a, "model habEccParse differs on an exported item"))
+
+            def table1():
+                tb = SrkTable()
+                tb.append(item)
+                tb2 = SrkTable.parse(tb.export() + junk)
+                return tb.export_fuses(), tb2.export_fuses(), tb2.export() == tb.export(), len(tb2)
+            tr = pyres(table1)
+            ref = spec_py("srk_table_hab", [k], [bool(flag)])
+            s.expect(tr[0] == "ok" and tr[1][0] == ref and tr[1][1] == ref and tr[1][2] and tr[1][3] == 1, inp,
+                     "one-item HAB SRK table: fuses differ from SHA-256(SHA-256(item)) or the table does not survive export -> parse", tr if tr[0] != "ok" else (tr[1][0].hex(), tr[1][1].hex(), tr[1][2], tr[1][3]), ref.hex())
+            if k.bits == 521 and (k.id % 4 == 0 or lz):
+                rr = cres(lambda: Rot(fam, rev, [k.form("cert_der_ku_only" if flag else "cert_der_none", scratch)[0]]).calculate_hash())
+                s.expect(rr == hx(ref), dict(inp, family=fam, revision=rev), "Rot(srk_table_hab) on a P-521 key differs from the documented value", rr, hx(ref))
+            if k.bits == 521:
+                items521.append((k, flag, item))
+            # one mutated header byte / truncated item: real parse vs model parse (canonical result or exception class)
+            for _ in range(2):
+                mut = bytearray(raw)
+                if rng.random() < 0.25:
+                    mut = mut[:rng.choice([0, 3, 4, 8, 11, 12, 13, len(raw) - 1, 12 + k.cs])]
+                else:
+                    j = rng.randrange(0, 12)
+                    mut[j] = rng.choice([0, 1, 0x4B, 0x4D, 0x4E, 0x80, 0xE1, 0xFF, mut[j] ^ (1 << rng.randrange(8))])
+                real = canon(pyres(SrkItemEcc.parse, bytes(mut)), obs)
+                ask(f"habecc_parse {bytes(mut).hex() or '-'}", lambda a, real=real, mut=bytes(mut): s.compare({"item": mut.hex()}, real, a, "model habEccParse differs on a mutated / truncated item"))
+    # ---- tables of 2..4 items that always contain a P-521 key (mixed curves, RSA)
+    others = [k for k in ecc if k.bits != 521] + pool[("rsa", 2048)][:3]
+    for _ in range(ck.budget(12, 60)):
+        if not items521:
+            break
+        k5, f5, it5 = rng.choice(items521)
+        ks = [(k5, f5)] + [(k, rng.choice([0, 0x80])) for k in rng.sample(others, rng.randrange(1, 4))]
+        rng.shuffle(ks)
+        inp = kdesc([k for k, _ in ks], ca=[bool(f) for _, f in ks])
+        s.note(tuple((k.id, f) for k, f in ks), cls=f"table{len(ks)}")
+
+        def table():
+            tb = SrkTable()
+            for k, f in ks:
+                tb.append(SrkItem.from_certificate(Certificate(k.cert("ku_only" if f else "none"))))
+            tb2 = SrkTable.parse(tb.export())
+            return tb.export_fuses(), tb2.export_fuses(), tb2.export() == tb.export(), len(tb2)
+        tr = pyres(table)
+        ref = spec_py("srk_table_hab", [k for k, _ in ks], [bool(f) for _, f in ks])
+        s.expect(tr[0] == "ok" and tr[1][0] == ref and tr[1][1] == ref and tr[1][2] and tr[1][3] == len(ks), inp,
+                 "HAB SRK table with a P-521 item: fuses differ from the documented value or the table does not survive export -> parse",
+                 tr if tr[0] != "ok" else (tr[1][0].hex(), tr[1][1].hex(), tr[1][2], tr[1][3]), ref.hex())
+        ask(f"path hab {ktoks([k for k, _ in ks], [bool(f) for _, f in ks])}", lambda a, ref=ref, inp=inp: s.compare(inp, hx(ref), a, "model pathHab differs from the hashlib reference"))
+    # ---- SrkItemEcc objects with arbitrary key sizes: the curve-id lookup get_ecc_curve(key_size // 8), coordinate size, refusals
+    for ksz in [0, 1, 8, 255, 256, 257, 263, 264, 300, 383, 384, 385, 391, 392, 511, 512, 519, 520, 521, 522, 527, 528, 529, 535, 536, 767, 768, 775, 776, 1024, 65535]:
+        for flag in (0, 0x80, 1):
+            cs_ = (ksz + 7) // 8
+            x = rng.getrandbits(8 * cs_) if cs_ and cs_ < 200 else 0
+            y = rng.getrandbits(8 * cs_ - 3) if cs_ and cs_ < 200 else 0
+            if flag == 1 and ksz % 5:
+                x = 256 ** cs_                        # does not fit
+            real = cres(lambda: SrkItemEcc(ksz, x, y, flag).export())
+            s.note(("obj", ksz, flag), cls="odd-key-size")
+            ask(f"habecc_export {ksz} {x} {y} {flag}", lambda a, real=real, ksz=ksz, x=x, y=y, flag=flag: s.compare({"key_size": ksz, "x": str(x), "y": str(y), "flag": flag}, real, a, "model habEccExport differs on an SrkItemEcc object with an arbitrary key size"))
     return s
 
 
